@@ -4,21 +4,78 @@
 
 package hashing
 
-//@ spec validMH(model any, mh string) bool
+// ---- C08: the hash algebra (uninterpreted primitives with the inverse laws of multihash; base64 laws in encoder) ----
 //
-//@ func IsValidModelMultihash
-//@   trusted
-//@   ensures (result == nil) == validMH(model, modelMultihash)
-
-//@ spec computedWith(mh string, codes []uint) bool
-//@ func IsComputedUsingMultihashAlgorithms
-//@   trusted
-//@   ensures result == computedWith(encodedMultihash, codes)
+//@ spec hashOf(h crypto.Hash, data bytes) bytes
+//@ spec mhEnc(code uint64, digest bytes) bytes
+//@ spec mhDecOK(b bytes) bool
+//@ spec mhCodeB(b bytes) uint64
+//@ spec mhDigestB(b bytes) bytes
+//@ spec validCode(code uint64) bool
+//@ axiom mh-inverse: forall c uint64, d bytes :: validCode(c) ==> mhDecOK(mhEnc(c, d)) && mhCodeB(mhEnc(c, d)) == c && mhDigestB(mhEnc(c, d)) == d
+//@ axiom mh-valid-codes: validCode(18) && validCode(19)
+//@ axiom mh-nonempty: forall c uint64, d bytes :: len(mhEnc(c, d)) > 0
 //
-//@ spec mhCodeOK(mh string) bool
-//@ spec mhCodeOf(mh string) uint64
+//@ spec supported(code uint) bool { code == 18 || code == 19 }
+//@ spec hashFor(code uint) crypto.Hash { cond(code == 18, crypto.SHA256, crypto.SHA512) }
+//@ spec mhOf(code uint, data bytes) bytes { mhEnc(code, hashOf(hashFor(code), data)) }
+//@ spec modelMH(v any, code uint) string { b64(mhOf(code, jcs(v))) }
+//@ spec opaque mhCodeOK(mh string) bool { b64ok(mh) && mhDecOK(b64dec(mh)) }
+//@ spec opaque mhCodeOf(mh string) uint64 { mhCodeB(b64dec(mh)) }
+// a model is accepted against a multihash exactly when the multihash is the hash of the model's canonical form
+// under the algorithm the multihash itself names
+//@ spec opaque validMH(model any, mh string) bool { mhCodeOK(mh) && jcsOK(model) && supported(uint(mhCodeOf(mh))) && mh == modelMH(model, uint(mhCodeOf(mh))) }
+//@ spec opaque computedWith(mh string, codes []uint) bool { mhCodeOK(mh) && (exists q int :: 0 <= q && q < len(codes) && mhCodeOf(mh) == uint64(codes[q])) }
+//
+//@ extern github.com/multiformats/go-multihash.Encode
+//@   params buf, code
+//@   results out, err
+//@   ensures (err == nil) == validCode(code)
+//@   ensures err == nil ==> out == mhEnc(code, buf)
+//@ extern github.com/multiformats/go-multihash.Decode
+//@   params buf
+//@   results d, err
+//@   ensures (err == nil) == mhDecOK(buf)
+//@   ensures err == nil ==> d != nil && d.Code == mhCodeB(buf) && d.Digest == mhDigestB(buf)
+//
+//@ func GetHash
+//@   trusted
+//@   results out, err
+//@   ensures (hash == crypto.SHA256 || hash == crypto.SHA512) ==> err == nil
+//@   ensures err == nil ==> out == hashOf(hash, data)
+//
+//@ func GetHashFromMultihash
+//@   ensures (err == nil) == supported(multihashCode)
+//@   ensures err == nil ==> h == hashFor(multihashCode)
+//
+//@ func ComputeMultihash
+//@   results out, err
+//@   ensures (err == nil) == supported(multihashCode)
+//@   ensures err == nil ==> out == mhOf(multihashCode, bytes)
+//
+//@ func GetMultihash
+//@   reveals mhCodeOK, mhCodeOf
+//@   results d, err
+//@   ensures (err == nil) == mhCodeOK(encodedMultihash)
+//@   ensures err == nil ==> d != nil && d.Code == mhCodeOf(encodedMultihash) && d.Digest == mhDigestB(b64dec(encodedMultihash))
+//
 //@ func GetMultihashCode
-//@   trusted
+//@   reveals mhCodeOK, mhCodeOf
 //@   results code, err
 //@   ensures (err == nil) == mhCodeOK(encodedMultihash)
 //@   ensures err == nil ==> code == mhCodeOf(encodedMultihash)
+//
+//@ func IsComputedUsingMultihashAlgorithms
+//@   reveals computedWith, mhCodeOK, mhCodeOf
+//@   loop 1
+//@     invariant forall q int :: 0 <= q && q < _k ==> mhCodeOf(encodedMultihash) != uint64(codes[q])
+//@   ensures result == computedWith(encodedMultihash, codes)
+//
+//@ func CalculateModelMultihash
+//@   results s, err
+//@   ensures (err == nil) == (jcsOK(value) && supported(alg))
+//@   ensures err == nil ==> s == modelMH(value, alg)
+//
+//@ func IsValidModelMultihash
+//@   reveals validMH, mhCodeOK, mhCodeOf
+//@   ensures (result == nil) == validMH(model, modelMultihash)
